@@ -10,6 +10,7 @@ import (
 	"fmt"
 	"strings"
 	"testing"
+	"time"
 
 	"github.com/tinode/chat/server/store/types"
 	kit "github.com/tinode/chat/server/zzverifkit"
@@ -44,13 +45,27 @@ func c20wGen(rt *rapid.T) wProg {
 	return p
 }
 
+type c20wSub struct {
+	Topic     string
+	User      types.Uid
+	DeletedAt *time.Time
+}
+
 type c20wObs struct {
 	wNopObs
 	frames, reloads int
 	preMsgs         int
+	preSubs         []c20wSub // subscriptions before the step
 }
 
-func (o *c20wObs) Before(w *wWorld, op *wOp) { o.preMsgs = len(mem.A.Snapshot().Msgs) }
+func (o *c20wObs) Before(w *wWorld, op *wOp) {
+	snap := mem.A.Snapshot()
+	o.preMsgs = len(snap.Msgs)
+	o.preSubs = nil
+	for _, r := range snap.Subs {
+		o.preSubs = append(o.preSubs, c20wSub{r.Topic, r.User, r.DeletedAt})
+	}
+}
 
 func (o *c20wObs) After(w *wWorld, st *wStep) *kit.Viol {
 	if st.Op.K == "reload" && st.Reloaded || st.Op.K == "restart" {
@@ -97,6 +112,25 @@ func (o *c20wObs) After(w *wWorld, st *wStep) *kit.Viol {
 				names = append(names, f.Meta.Topic)
 			}
 			for _, n := range names {
+				if (strings.HasPrefix(n, "grp") || strings.HasPrefix(n, "chn")) && (f.Data != nil || (f.Pres != nil && f.Pres.Topic != "me")) {
+					// a channel-enabled group is grpXXX to its subscribers and chnXXX to its readers, whoever
+					// caused the topic to be loaded and under whichever spelling
+					asGrp, asChn := false, false
+					for _, r := range o.preSubs {
+						if r.User == self && r.DeletedAt == nil {
+							asGrp = asGrp || r.Topic == types.ChnToGrp(n) || (strings.HasPrefix(n, "grp") && r.Topic == n)
+							asChn = asChn || r.Topic == types.GrpToChn(n) || (strings.HasPrefix(n, "chn") && r.Topic == n)
+						}
+					}
+					o.frames++
+					if asGrp && !asChn && strings.HasPrefix(n, "chn") {
+						return kit.V("group-shown-under-channel-name", "session %d of user %d, a subscriber of the group, received %s: a subscriber knows the topic by its grpXXX name", sess, u, wJSON(f))
+					}
+					if asChn && !asGrp && strings.HasPrefix(n, "grp") {
+						return kit.V("channel-shown-under-group-name", "session %d of user %d, a reader of the channel, received %s: a reader knows the topic by its chnXXX name", sess, u, wJSON(f))
+					}
+					continue
+				}
 				if !strings.HasPrefix(n, "usr") {
 					continue
 				}
